@@ -3,9 +3,10 @@
 import Iodata.Drv.Conv
 import Iodata.Drv.IOData
 import Iodata.Drv.Orbitals
+import Iodata.Drv.Segment
 
 def handlers : List (List String → Option String) :=
-  [Iodata.Drv.Conv.handle, Iodata.Drv.IOData.handle, Iodata.Drv.Orbitals.handle]
+  [Iodata.Drv.Conv.handle, Iodata.Drv.IOData.handle, Iodata.Drv.Orbitals.handle, Iodata.Drv.Segment.handle]
 
 def respond (line : String) : String :=
   let ws := (line.splitOn " ").filter (· ≠ "")
